@@ -194,6 +194,7 @@ class Scope(object):
 
     def __init__(self):
         self.sorts = {}     # name -> arity
+        self.sortdefs = {}  # name -> ([parameter names], sort expression): define-sort abbreviations
         self.funs = {}      # name -> (param sorts tuple, ret sort)
         self.defs = {}      # name -> ([(pname, sort)], ret sort, body term, body sort)
         self.assertions = []
@@ -212,6 +213,12 @@ class Script(object):
         for lv in reversed(self.levels):
             if name in lv.sorts:
                 return lv.sorts[name]
+        return None
+
+    def sort_def(self, name):
+        for lv in reversed(self.levels):
+            if name in lv.sortdefs:
+                return lv.sortdefs[name]
         return None
 
     def fun(self, name):
@@ -258,6 +265,10 @@ def parse_sort(sx, script, params=None):
                 return STRING
         if params and n in params:
             return params[n]
+        sd = script.sort_def(n)
+        if sd is not None:
+            _need(not sd[0], "sort %s expects %d arguments" % (n, len(sd[0])))
+            return parse_sort(sd[1], script, None)
         ar = script.sort_arity(n)
         if ar is None:
             raise SmtError("sort %s is used but not declared" % n)
@@ -274,6 +285,11 @@ def parse_sort(sx, script, params=None):
             return ("ARRAY", parse_sort(sx[1], script, params), parse_sort(sx[2], script, params))
         if isinstance(sx[0], Atom) and sx[0].kind in ("sym", "qsym"):
             n = symname(sx[0])
+            sd = script.sort_def(n)
+            if sd is not None:
+                _need(len(sd[0]) == len(sx) - 1, "sort %s expects %d arguments" % (n, len(sd[0])))
+                actual = dict(zip(sd[0], [parse_sort(x, script, params) for x in sx[1:]]))
+                return parse_sort(sd[1], script, actual)
             ar = script.sort_arity(n)
             if ar is None:
                 raise SmtError("sort %s is used but not declared" % n)
@@ -770,7 +786,16 @@ def run_command(s, rd, c):
                 _need(wso in (INT, REAL), "weight of sort %s" % (wso,))
                 opts[":weight"] = wt
             s.commands.append((name, (t, opts)))
-        elif name in ("define-sort", "define-fun-rec", "define-funs-rec", "declare-datatype", "declare-datatypes"):
+        elif name == "define-sort":
+            _need(len(c) == 4 and isinstance(c[2], list), "define-sort shape")
+            nm = symname(c[1])
+            _need(s.sort_arity(nm) is None and s.sort_def(nm) is None and
+                  nm not in ("Bool", "Int", "Real", "String", "Array", "BitVec"), "sort %s declared twice" % nm)
+            ps = [symname(x) for x in c[2]]
+            parse_sort(c[3], s, dict((p_, ("CUSTOM", "#" + p_)) for p_ in ps))      # well-formed with opaque parameters
+            cur.sortdefs[nm] = (ps, c[3])
+            s.commands.append((name, (nm, len(ps))))
+        elif name in ("define-fun-rec", "define-funs-rec", "declare-datatype", "declare-datatypes"):
             raise SmtError("command %s not covered by the reference reader" % name, unsupported=True)
         else:
             s.commands.append((name, tuple(c[1:])))
